@@ -80,10 +80,15 @@ pub enum GOp {
     Drop,
 }
 
+/// incoming ids in effect: (trace id hex, span id hex), either may be absent
+pub type Inc = (Option<String>, Option<String>);
+
 #[derive(Clone, Debug)]
 pub enum Incoming {
     /// ids pushed as ambient properties: typed values or hex strings (plain runtime)
-    Ids { trace: u128, span: u64, as_text: bool },
+    /// `part`: 0 both ids, 1 only the trace id, 2 only the span id (used only where no trace is active yet,
+    /// so that the per-key shadowing of ambient properties stays out of the model)
+    Ids { trace: u128, span: u64, as_text: bool, part: u8 },
     /// a traceparent header pushed through `Traceparent::push` (traceparent runtime)
     Header { text: String },
 }
@@ -144,7 +149,7 @@ pub struct SpanInfo {
     /// the enabled span it is directly nested in (sid), if any
     pub parent: Option<u32>,
     /// incoming ids in effect when there is no enabled parent span: (trace hex, span hex)
-    pub incoming: Option<(String, String)>,
+    pub incoming: Option<Inc>,
     /// the model says the span passed the filter / sampler
     pub enabled: bool,
     pub started: bool,
@@ -168,7 +173,7 @@ pub struct Obs {
     pub strand: u32,
     pub whence: &'static str,
     pub expect_span: Option<u32>,
-    pub expect_incoming: Option<(String, String)>,
+    pub expect_incoming: Option<Inc>,
     pub expect_unsampled: bool,
     pub got: (Option<String>, Option<String>, Option<String>),
     pub tp: (Option<String>, Option<String>, bool),
@@ -183,7 +188,7 @@ pub struct Log {
     pub recs: Vec<Rec>,
     pub spans: Vec<SpanInfo>,
     pub obs: Vec<Obs>,
-    pub events: Vec<(u32, u32, Option<u32>, Option<(String, String)>, bool)>,
+    pub events: Vec<(u32, u32, Option<u32>, Option<Inc>, bool)>,
     pub spawned: Vec<(Task, String, u32)>,
     pub next_strand: u32,
     pub clock_pos: usize,
@@ -362,7 +367,7 @@ pub struct Strand {
     /// enclosing enabled spans, innermost last
     pub enabled: Vec<u32>,
     /// incoming ids in effect (trace hex, span hex), innermost last; `None` entries mask (root frames are not generated)
-    pub incoming: Vec<(String, String)>,
+    pub incoming: Vec<Inc>,
     /// depth of the `enabled` stack at which each incoming entry was pushed
     pub incoming_at: Vec<usize>,
     /// inside an unsampled trace (traceparent runtime)
@@ -370,7 +375,7 @@ pub struct Strand {
 }
 
 impl Strand {
-    fn innermost(&self) -> (Option<u32>, Option<(String, String)>) {
+    fn innermost(&self) -> (Option<u32>, Option<Inc>) {
         // the innermost of: enabled span, incoming ids
         match (self.enabled.last(), self.incoming.last(), self.incoming_at.last()) {
             (Some(s), Some(inc), Some(at)) => {
@@ -597,13 +602,13 @@ fn run_manual(w: &Arc<World>, st: &mut Strand, sid: u32, enabled: bool, ops: &[G
     let completion = RecCompletion {
         log: w.log.clone(),
         tag: 0,
-        ctxt: *rt.ctxt(),
+        ctxt: rt.ctxt().clone(),
     };
     let mut props: BTreeMap<String, i64> = BTreeMap::new();
     props.insert("sid".into(), sid as i64);
     let (guard, frame) = SpanGuard::new(
         rt.filter(),
-        *rt.ctxt(),
+        rt.ctxt().clone(),
         rt.clock().clone(),
         rt.rng().clone(),
         completion,
@@ -621,7 +626,7 @@ fn run_manual(w: &Arc<World>, st: &mut Strand, sid: u32, enabled: bool, ops: &[G
     let mut m_done = false;
     let mut expect_records = 0u32;
     let log = w.log.clone();
-    let ctxt = *rt.ctxt();
+    let ctxt = rt.ctxt().clone();
     let w2 = w.clone();
     let name = st.name.clone();
     frame.call(|| {
@@ -666,7 +671,7 @@ fn run_manual(w: &Arc<World>, st: &mut Strand, sid: u32, enabled: bool, ops: &[G
                     guard = Some(g.with_completion(RecCompletion {
                         log: log.clone(),
                         tag: *tag,
-                        ctxt,
+                        ctxt: ctxt.clone(),
                     }));
                     w2.probe("completion_replaced");
                     if !enabled {
@@ -702,7 +707,7 @@ fn run_manual(w: &Arc<World>, st: &mut Strand, sid: u32, enabled: bool, ops: &[G
                     let got = g.complete_with(RecCompletion {
                         log: log.clone(),
                         tag: *tag,
-                        ctxt,
+                        ctxt: ctxt.clone(),
                     });
                     if want {
                         expect_records += 1;
@@ -906,7 +911,7 @@ fn run_sync(w: &Arc<World>, st: &mut Strand, nodes: &Arc<Vec<S>>) {
                 child.id = id;
                 child.name = format!("{}>thread{id}", st.name);
                 w.probe("thread_hand_off");
-                let frame = Frame::current(*w.rt.ctxt());
+                let frame = Frame::current(w.rt.ctxt().clone());
                 let w2 = w.clone();
                 let body = body.clone();
                 let parent_strand = cur_strand();
@@ -953,16 +958,55 @@ fn run_sync(w: &Arc<World>, st: &mut Strand, nodes: &Arc<Vec<S>>) {
     }
 }
 
-fn hex_ids(inc: &Incoming) -> Option<(String, String, bool)> {
+fn hex_ids(inc: &Incoming) -> Option<(Option<String>, Option<String>, bool)> {
     match inc {
-        Incoming::Ids { trace, span, .. } => Some((format!("{trace:032x}"), format!("{span:016x}"), true)),
+        Incoming::Ids { trace, span, part, .. } => Some((
+            if *part != 2 { Some(format!("{trace:032x}")) } else { None },
+            if *part != 1 { Some(format!("{span:016x}")) } else { None },
+            true,
+        )),
         Incoming::Header { text } => Traceparent::try_from_str(text).ok().and_then(|tp| {
             match (tp.trace_id(), tp.span_id()) {
-                (Some(t), Some(s)) => Some((t.to_string(), s.to_string(), tp.trace_flags().is_sampled())),
+                (Some(t), Some(s)) => Some((Some(t.to_string()), Some(s.to_string()), tp.trace_flags().is_sampled())),
                 _ => None,
             }
         }),
     }
+}
+
+/// Partial incoming ids are only used where no trace is active; elsewhere the node pushes both ids.
+fn effective_incoming(st: &Strand, inc: &Incoming) -> Incoming {
+    match inc {
+        Incoming::Ids { trace, span, as_text, part } if *part != 0 && st.in_trace() => Incoming::Ids {
+            trace: *trace,
+            span: *span,
+            as_text: *as_text,
+            part: 0,
+        },
+        other => other.clone(),
+    }
+}
+
+fn ids_frame(w: &Arc<World>, trace: u128, span: u64, as_text: bool, part: u8) -> Frame<TheCtxt> {
+    let t = emit::TraceId::from_u128(trace).unwrap();
+    let s = emit::SpanId::from_u64(span).unwrap();
+    let (ts, ss) = (t.to_string(), s.to_string());
+    let mut props: Vec<(&str, emit::Value)> = Vec::new();
+    if part != 2 {
+        props.push(("trace_id", if as_text { emit::Value::from(ts.as_str()) } else { emit::Value::from_any(&t) }));
+    }
+    if part != 1 {
+        props.push(("span_id", if as_text { emit::Value::from(ss.as_str()) } else { emit::Value::from_any(&s) }));
+    }
+    if as_text {
+        w.probe("incoming_ids_as_hex_text");
+    }
+    match part {
+        1 => w.probe("incoming_trace_id_only"),
+        2 => w.probe("incoming_span_id_only"),
+        _ => {}
+    }
+    Frame::push(w.rt.ctxt().clone(), &props[..])
 }
 
 fn push_incoming_model(st: &mut Strand, inc: &Incoming) -> bool {
@@ -994,16 +1038,11 @@ fn pop_incoming_model(st: &mut Strand, inc: &Incoming) {
 fn run_incoming_sync(w: &Arc<World>, st: &mut Strand, inc: &Incoming, body: &Arc<Vec<S>>) {
     w.probe("incoming_ids_pushed");
     match inc {
-        Incoming::Ids { trace, span, as_text } => {
-            let t = emit::TraceId::from_u128(*trace).unwrap();
-            let s = emit::SpanId::from_u64(*span).unwrap();
-            let frame = if *as_text {
-                w.probe("incoming_ids_as_hex_text");
-                let (ts, ss) = (t.to_string(), s.to_string());
-                Frame::push(*w.rt.ctxt(), [("trace_id", emit::Value::from(ts.as_str())), ("span_id", emit::Value::from(ss.as_str()))])
-            } else {
-                Frame::push(*w.rt.ctxt(), [("trace_id", emit::Value::from_any(&t)), ("span_id", emit::Value::from_any(&s))])
-            };
+        Incoming::Ids { .. } => {
+            let eff = effective_incoming(st, inc);
+            let inc = &eff;
+            let Incoming::Ids { trace, span, as_text, part } = inc else { unreachable!() };
+            let frame = ids_frame(w, *trace, *span, *as_text, *part);
             push_incoming_model(st, inc);
             frame.call(|| {
                 observe(w, st, "inside pushed incoming ids");
@@ -1081,7 +1120,7 @@ fn spawn_task(w: &Arc<World>, st: &Strand, body: &Arc<Vec<S>>, header: Option<St
             let mut child = st.clone();
             child.id = id;
             child.name = format!("{}>task{id}", st.name);
-            let frame = Frame::current(*w.rt.ctxt());
+            let frame = Frame::current(w.rt.ctxt().clone());
             w.probe("task_spawned_with_carried_frame");
             Box::pin(InStrand {
                 id,
@@ -1155,16 +1194,11 @@ fn run_async<'a>(w: &'a Arc<World>, st: &'a mut Strand, nodes: &'a Arc<Vec<S>>) 
                     w.mark("after", sid);
                     observe(w, st, "after async span ended");
                 }
-                S::Incoming(inc @ Incoming::Ids { trace, span, as_text }, body) => {
-                    let t = emit::TraceId::from_u128(*trace).unwrap();
-                    let s = emit::SpanId::from_u64(*span).unwrap();
-                    let frame = if *as_text {
-                        w.probe("incoming_ids_as_hex_text");
-                        let (ts, ss) = (t.to_string(), s.to_string());
-                        Frame::push(*w.rt.ctxt(), [("trace_id", emit::Value::from(ts.as_str())), ("span_id", emit::Value::from(ss.as_str()))])
-                    } else {
-                        Frame::push(*w.rt.ctxt(), [("trace_id", emit::Value::from_any(&t)), ("span_id", emit::Value::from_any(&s))])
-                    };
+                S::Incoming(inc @ Incoming::Ids { .. }, body) => {
+                    let eff = effective_incoming(st, inc);
+                    let inc = &eff;
+                    let Incoming::Ids { trace, span, as_text, part } = inc else { unreachable!() };
+                    let frame = ids_frame(w, *trace, *span, *as_text, *part);
                     w.probe("incoming_ids_pushed");
                     push_incoming_model(st, inc);
                     frame.in_future(run_async(w, st, body)).await;
@@ -1339,6 +1373,7 @@ pub fn gen_nodes(ch: &mut Choices, cfg: &GenCfg, depth: u32, budget: &mut u32, n
                         trace: 0xabc0_0000_0000_0000_0000_0000_0000_0000u128 + *next as u128,
                         span: 0xdef0_0000_0000_0000u64 + *next as u64,
                         as_text: ch.chance(1, 2),
+                        part: ch.weighted(&[4, 1, 1]) as u8,
                     }
                 };
                 out.push(S::Incoming(inc, gen_nodes(ch, cfg, depth + 1, budget, next, is_async)));
@@ -1439,7 +1474,7 @@ pub fn run(ch: &mut Choices, ctx: &RunCtx, focus: &'static str) -> Outcome {
         no_sampler,
     });
     w.log(format!(
-        "config: runtime={} lanes={n_lanes} tasks={n_tasks} cancel={cancel_enabled} sticky={sticky} clock_mode={clock_mode} in_sampled_trace_filter={in_sampled_filter} no_sampler={no_sampler}",
+        "config: runtime={} ctxt={CTXT_LABEL} lanes={n_lanes} tasks={n_tasks} cancel={cancel_enabled} sticky={sticky} clock_mode={clock_mode} in_sampled_trace_filter={in_sampled_filter} no_sampler={no_sampler}",
         if TP { "traceparent" } else { "plain" }
     ));
     if ctx.want_trace {
@@ -1723,7 +1758,8 @@ fn posthoc(w: &World, focus: &'static str) {
                 Some((t, id)) => (Some(id), Some(t)),
                 None => (None, None),
             },
-            (None, Some((t, sp))) => (Some(Some(sp.clone())), Some(Some(t.clone()))),
+            // a missing incoming trace id means a fresh one is generated (checked below: present)
+            (None, Some((t, sp))) => (Some(sp.clone()), t.as_ref().map(|t| Some(t.clone()))),
             (None, None) => (Some(None), None),
         };
         if let Some(wp) = want_parent {
@@ -1771,7 +1807,7 @@ fn posthoc(w: &World, focus: &'static str) {
         let rec = recs[0];
         let want: Option<(Option<String>, Option<String>)> = match (es, ei) {
             (Some(sid), _) => ids_of(*sid),
-            (None, Some((t, s))) => Some((Some(t.clone()), Some(s.clone()))),
+            (None, Some((t, s))) => Some((t.clone(), s.clone())),
             (None, None) => Some((None, None)),
         };
         if TP && *unsampled {
@@ -1800,7 +1836,7 @@ fn posthoc(w: &World, focus: &'static str) {
         }
         let want: Option<(Option<String>, Option<String>)> = match (&o.expect_span, &o.expect_incoming) {
             (Some(sid), _) => ids_of(*sid),
-            (None, Some((t, s))) => Some((Some(t.clone()), Some(s.clone()))),
+            (None, Some((t, s))) => Some((t.clone(), s.clone())),
             (None, None) => Some((None, None)),
         };
         if TP && o.expect_unsampled {
